@@ -44,7 +44,8 @@ _Q = {"linearity_checked": 1000, "area_checked": 2000, "sign_checked": 1300, "ma
       "rise_time_checked": 1000, "tone_checked": 130, "reference_checked": 450, "tail_checked": 1700,
       "tail_checked:wf:det:std": 500, "tail_checked:wf:det:eom": 90, "tail_checked:seq:amp:eom": 90,
       "tail_checked:seq:det:std": 200, "modulated_sample_calls": 1400, "modulated_sample_calls_with_empty_channel": 600,
-      "modulated_lengths_checked": 2200, "modulated_lengths_checked_with_bandwidth": 1100}
+      "modulated_lengths_checked": 2200, "modulated_lengths_checked_with_bandwidth": 1100,
+      "eom_block_outputs_compared": 200, "two_channel_separations_checked": 100}
 FLOORS = {"quick": _Q, "thorough": {k: 10 * v for k, v in _Q.items()}}
 
 BW_POOL = [0.3, 0.5, 0.77, 1.3, 2.0, 4.0, 5.0, 8.0, 13.7, 20.0, 40.0, 60.0]
@@ -53,7 +54,7 @@ COEFS = [1.0, -1.0, 0.0, 2.5, -0.3, 1e3, 1e-3, -7.0]
 LENGTHS = [1, 1, 2, 3, 5, 17, 64, 200, 200, 1000, 5000, 20000]
 TWO_PI = 2 * math.pi
 AMAX, DMAX = 10 * TWO_PI, 20 * TWO_PI
-FAMILIES = {"laws": 30, "tone": 4, "ref": 14, "fall-wf": 18, "fall-seq": 12, "prog": 22}
+FAMILIES = {"laws": 30, "tone": 4, "ref": 14, "fall-wf": 18, "fall-seq": 12, "prog": 22, "eom-blocks": 3, "two-channels": 4}
 PROG_WEIGHTS = {"sample": 0, "str": 0, "to_abstract_repr": 0, "build_copy": 0, "queries": 0, "measure": 0.05,
                 "config_detuning_map": 1.5, "add_dmm_detuning": 3, "config_slm_mask": 0.6, "target": 2,
                 "declare_channel": 2.5}
@@ -431,6 +432,117 @@ def case_fall_seq(ctx, rng):
                    bw, tf - s["ti"], fall >= 2 * tr)
 
 
+def case_eom_blocks(ctx, rng):
+    """Two to three identical EOM blocks (enable, one pulse, disable, rest) on one channel: the modulated output
+    around each pulse - from its rise to the end of its accounted fall time - is the same for every block, whichever
+    comes last (the sampler handles each block's tail, not only the final one's)."""
+    c = channel_spec(rng, eom_p=1.0)
+    tr_std, tr = F.rise_time(c["mod_bandwidth"]), F.rise_time(c["eom"]["mod_bandwidth"])
+    dev = {"kind": "virtual", "name": "FallDev", "dimensions": 2, "rydberg_level": 70, "min_atom_distance": 1,
+           "max_atom_num": None, "max_radial_distance": None, "channels": [c], "dmm": []}
+    reg = {"kind": "reg", "ids": ["q0"], "coords": [[0.0, 0.0]]}
+    r = prog.Runner(ctx, dev, reg, [], meta={"family": "eom-blocks"})
+    ctx.sample(r.prog)
+    d = gen.pick(rng, [4, 16, 30, 60, 100, 250])
+    rest = 3 * max(tr, tr_std) + rng.randint(1, 20)
+    amp_on = gen.r6(AMAX * gen.pick(rng, [0.1, 0.5, 1.0]))
+    det_on = gen.pick(rng, [0.0, 1.0, -2.0])
+    nblocks = rng.randint(2, 3)
+    ops = [{"op": "declare_channel", "name": "ch", "ch_id": "rg"}, {"op": "delay", "duration": rest, "ch": "ch"}]
+    for _ in range(nblocks):
+        ops += [{"op": "enable_eom_mode", "ch": "ch", "amp_on": amp_on, "detuning_on": det_on},
+                {"op": "add_eom_pulse", "ch": "ch", "duration": d, "phase": 0.0},
+                {"op": "disable_eom_mode", "ch": "ch"}, {"op": "delay", "duration": rest, "ch": "ch"}]
+    for op in ops:
+        ev = r.step(op)
+        if ev.exc is not None:
+            ctx.count("eom_blocks_setup_refused")
+            return
+    snap = snapshot(r.seq)
+    pulses = [s for s in snap["chans"]["ch"]["slots"] if s["kind"] == "pulse"]
+    if len(pulses) != nblocks:
+        ctx.count("eom_blocks_setup_refused")
+        return
+    from pulser.sampler import sample
+    try:
+        out = arr(sample(r.seq, modulation=True).channel_samples["ch"].amp)
+        fall = int(pulses[0]["pulse"].fall_time(snap["chans"]["ch"]["obj"], in_eom_mode=True))
+    except Exception as e:
+        ctx.violation("modulated-sample-raises", f"{nblocks} EOM blocks: {type(e).__name__}: {str(e)[:200]}",
+                      f"modulated-sample-raises:{type(e).__name__}")
+        return
+    segs = [out[p["ti"]: p["tf"] + fall] for p in pulses]
+    ctx.count("eom_block_outputs_compared", len(segs) - 1)
+    ctx.mark_nontrivial(("eom-blocks", bw_bucket(c["eom"]["mod_bandwidth"]), dur_bucket(d), nblocks))
+    for k, sg in enumerate(segs[:-1]):
+        if len(sg) != len(segs[-1]) or float(np.max(np.abs(sg - segs[-1]))) > 1e-9 * (1 + amp_on):
+            i = int(np.argmax(np.abs(sg - segs[-1]))) if len(sg) == len(segs[-1]) else -1
+            ctx.violation("eom-block-tail", f"the modulated output of the EOM pulse of block {k + 1} differs from that of the "
+                          f"identical last block {nblocks}: at {i} ns after the pulse start {sg[i]!r} vs {segs[-1][i]!r} "
+                          f"(pulse {d} ns, accounted fall time {fall} ns)", "eom-block-outputs-differ")
+            return
+
+
+def case_two_channels(ctx, rng):
+    """Two global channels on one atom, each with its own bandwidth / EOM and in its own mode: a pulse added with
+    'min-delay' / 'wait-for-all' on one starts only when the output of the other's last pulse is down."""
+    ca, cb = channel_spec(rng, eom_p=0.7), channel_spec(rng, eom_p=0.7)
+    ca["id"], cb["id"] = "rga", "rgb"
+    dev = {"kind": "virtual", "name": "TwoDev", "dimensions": 2, "rydberg_level": 70, "min_atom_distance": 1,
+           "max_atom_num": None, "max_radial_distance": None, "channels": [ca, cb], "dmm": []}
+    reg = {"kind": "reg", "ids": ["q0"], "coords": [[0.0, 0.0]]}
+    r = prog.Runner(ctx, dev, reg, [], meta={"family": "two-channels"})
+    ctx.sample(r.prog)
+    a_eom = bool(ca.get("eom")) and rng.random() < 0.4
+    b_eom = bool(cb.get("eom")) and rng.random() < 0.6
+    d = gen.pick(rng, [4, 16, 60, 100, 250])
+    lead = 3 * max(F.rise_time(ca["mod_bandwidth"]), F.rise_time(cb["mod_bandwidth"]))
+    ops = [{"op": "declare_channel", "name": "a", "ch_id": "rga"}, {"op": "declare_channel", "name": "b", "ch_id": "rgb"},
+           {"op": "delay", "duration": lead, "ch": "a"}]
+    if a_eom:
+        ops += [{"op": "enable_eom_mode", "ch": "a", "amp_on": gen.r6(AMAX * gen.pick(rng, [0.2, 1.0])), "detuning_on": 0.0},
+                {"op": "add_eom_pulse", "ch": "a", "duration": d, "phase": 0.0}]
+    else:
+        ops.append({"op": "add", "pulse": fall_pulse(rng, ca, d), "ch": "a"})
+    proto = gen.pick(rng, ["min-delay", "wait-for-all"])
+    if b_eom:
+        ops += [{"op": "enable_eom_mode", "ch": "b", "amp_on": gen.r6(AMAX * gen.pick(rng, [0.2, 1.0])), "detuning_on": 0.0},
+                {"op": "add_eom_pulse", "ch": "b", "duration": gen.pick(rng, [16, 100]), "phase": 0.0, "protocol": proto}]
+    else:
+        ops.append({"op": "add", "pulse": fall_pulse(rng, cb, gen.pick(rng, [16, 100])), "ch": "b", "protocol": proto})
+    for op in ops:
+        ev = r.step(op)
+        if ev.exc is not None:
+            ctx.count("two_channels_setup_refused")
+            return
+    snap = snapshot(r.seq)
+    pa = next((s for s in reversed(snap["chans"]["a"]["slots"]) if s["kind"] in ("pulse", "ddelay") and s["pulse"] is not None
+               and np.any(arr(s["pulse"].amplitude.samples))), None)
+    pb = next((s for s in reversed(snap["chans"]["b"]["slots"]) if s["kind"] == "pulse"), None)
+    if pa is None or pb is None:
+        ctx.count("two_channels_setup_refused")
+        return
+    xa = arr(pa["pulse"].amplitude.samples)
+    if not np.all(np.isfinite(xa)):
+        ctx.count("input_nonfinite_skipped")
+        return
+    from pulser.sampler import sample
+    T = pb["tf"] + 10
+    try:
+        out = arr(sample(r.seq, modulation=True, extended_duration=T).channel_samples["a"].amp)
+    except Exception as e:
+        ctx.violation("modulated-sample-raises", f"two channels: {type(e).__name__}: {str(e)[:200]}",
+                      f"modulated-sample-raises:{type(e).__name__}")
+        return
+    bw = mod_params(ca, a_eom)
+    ctx.count("two_channel_separations_checked")
+    ctx.count(f"two_channel_separations:{'eom' if a_eom else 'std'}-then-{'eom' if b_eom else 'std'}")
+    fall = int(pa["pulse"].fall_time(snap["chans"]["a"]["obj"], in_eom_mode=a_eom))
+    check_tail(ctx, out, pb["ti"], min(len(out), T), float(np.max(np.abs(xa))), "amp", F.sign_pattern(xa),
+               "eom" if a_eom else "std", "two-channels", (pa["pulse"].amplitude.__class__.__name__, "const"), bw,
+               pa["tf"] - pa["ti"], fall >= 2 * F.rise_time(bw))
+
+
 # ------------------------------------------------------------------------------------------ generated programs
 def eom_buffer_bw(obj) -> float:
     """Bandwidth whose rise time is half the EOM buffer time (public fields only): 0.48 / (buffer/2 * 1e-3) MHz."""
@@ -541,7 +653,7 @@ def case_prog(ctx, rng):
 
 
 CASES = {"laws": case_laws, "tone": case_tone, "ref": case_ref, "fall-wf": case_fall_wf, "fall-seq": case_fall_seq,
-         "prog": case_prog}
+         "prog": case_prog, "eom-blocks": case_eom_blocks, "two-channels": case_two_channels}
 
 
 def run_case(ctx, idx, rng, tier):
